@@ -1,10 +1,13 @@
 """C06 Stripes recorded as synced always have valid parity."""
-import arrayprop
+import arrayprop, directed
 
 
 def run(tier):
     return arrayprop.standard_run(
         "C06", tier, profiles=["syncheavy", "grammar", "ranges", "copy", "grammar", "mixed", "ranges", "copy"], nquick=48, nthorough=400, steps=(22, 34),
+        directed_jobs=lambda s0: [(s0 + 1, dict(nd=3, np=2, copies=2), "directed-deleted-next-to-rotten", 0, directed.deleted_next_to_rotten),
+                                  (s0 + 2, dict(nd=3, np=2, copies=2), "directed-rehash-silent-sync", 0, directed.rehash_silent_sync),
+                                  (s0 + 3, dict(nd=3, np=2, copies=2), "directed-zero-chg-second-disk", 0, directed.zero_chg_second_disk)],
         rule="ParityValid (every all-synced stripe holds, in every level, the generator applied to the recorded blocks, parity "
              "files long enough) and MapSane (no position shared, every block mapped, positions increasing) are evaluated by "
              "TLC on the projection of the real array after every command of every history (independent content decoder, "
